@@ -5,6 +5,8 @@
     Clock readings are inputs of the operations and arbitrary. *)
 From Coq Require Import List Bool NArith.
 From VB Require Import Conc.ValidatorDefs Conc.CacheDefs Conc.CacheProofs.
+From VB Require Import Conc.HeaderDefs Conc.HeaderProofs Conc.LruMapDefs Conc.LruMapProofs.
+From Coq Require Import ZArith.
 Import ListNotations.
 
 (** every value returned by progPowHash equals f(header): for every number of threads, every interleaving of the
@@ -121,3 +123,97 @@ Theorem C17_unlocked_getOrDefault_refuted :
               v <> f nat nat nat nat CacheExample.epx CacheExample.mkx CacheExample.hashx h.
 Proof. exact CacheExample.unlocked_getOrDefault_refuted_lemma. Qed.
 Print Assumptions C17_unlocked_getOrDefault_refuted.
+
+(* ---------------- header-field sensitivity: the hashed byte string (VbkBlock::toRaw) ---------------- *)
+
+(** toRaw yields 65 bytes for every header whose fields are in the ranges of their C++ types *)
+Theorem C17_header_raw_length :
+  forall h : vhdr, hdr_wf h = true -> length (hdr_raw h) = 65 /\ forallb is_byte (hdr_raw h) = true.
+Proof. exact hdr_raw_shape_lemma. Qed.
+Print Assumptions C17_header_raw_length.
+
+(** toRaw is injective in all nine fields (types' ranges; nonce below 2^40, the 5 bytes that are written) *)
+Theorem C17_header_raw_injective :
+  forall h1 h2 : vhdr,
+    hdr_wf h1 = true -> hdr_wf h2 = true -> nonce40 h1 = true -> nonce40 h2 = true ->
+    hdr_raw h1 = hdr_raw h2 -> h1 = h2.
+Proof. exact hdr_raw_injective_lemma. Qed.
+Print Assumptions C17_header_raw_injective.
+
+(** a changed field changes the hash input *)
+Theorem C17_header_field_sensitive :
+  forall h1 h2 : vhdr,
+    hdr_wf h1 = true -> hdr_wf h2 = true -> nonce40 h1 = true -> nonce40 h2 = true ->
+    h1 <> h2 -> hdr_raw h1 <> hdr_raw h2.
+Proof. exact hdr_field_sensitive_lemma. Qed.
+Print Assumptions C17_header_field_sensitive.
+
+(** ... and the header-cache key sha256twice(toRaw), for a collision-free sha256twice: together with
+    C17_lookup_transparent (Hdr := byte strings) no two distinct headers share a cache entry *)
+Theorem C17_header_key_injective :
+  forall (Key : Type) (sha : list Z -> Key),
+    (forall a b : list Z, sha a = sha b -> a = b) ->
+    forall h1 h2 : vhdr,
+      hdr_wf h1 = true -> hdr_wf h2 = true -> nonce40 h1 = true -> nonce40 h2 = true ->
+      sha (hdr_raw h1) = sha (hdr_raw h2) -> h1 = h2.
+Proof. exact hdr_key_injective_lemma. Qed.
+Print Assumptions C17_header_key_injective.
+
+(** full-strength variant without the 40-bit premise is FALSE: uint64_t nonce, 5 bytes written *)
+Theorem C17_header_raw_injective_all_nonces_refuted :
+  exists h1 h2 : vhdr, hdr_wf h1 = true /\ hdr_wf h2 = true /\ h1 <> h2 /\ hdr_raw h1 = hdr_raw h2.
+Proof. exact hdr_raw_injective_all_nonces_refuted_lemma. Qed.
+Print Assumptions C17_header_raw_injective_all_nonces_refuted.
+
+(** what progPowHashImpl reads back from the bytes is the field that was written: height (sign included),
+    epoch = (uint32)(height / 8000) + 323 (the key of the epoch cache), nonce mod 2^40 *)
+Theorem C17_raw_height_epoch_nonce :
+  forall h : vhdr, hdr_wf h = true ->
+    raw_height (hdr_raw h) = h_height h /\
+    raw_epoch (hdr_raw h) = ((((Z.quot (h_height h) 8000) mod 4294967296) + 323) mod 4294967296)%Z /\
+    raw_nonce (hdr_raw h) = (h_nonce h mod 1099511627776)%Z.
+Proof. exact raw_reads_lemma. Qed.
+Print Assumptions C17_raw_height_epoch_nonce.
+
+(** every one of the 65 bytes reaches the kernel: (height, nonce, first 60 bytes) determine the byte string *)
+Theorem C17_kernel_inputs_injective :
+  forall r1 r2 : list Z,
+    bytes_n 65 r1 = true -> bytes_n 65 r2 = true -> kernel_inputs r1 = kernel_inputs r2 -> r1 = r2.
+Proof. exact kernel_inputs_injective_lemma. Qed.
+Print Assumptions C17_kernel_inputs_injective.
+
+(** ... hence every header field *)
+Theorem C17_kernel_inputs_field_sensitive :
+  forall h1 h2 : vhdr,
+    hdr_wf h1 = true -> hdr_wf h2 = true -> nonce40 h1 = true -> nonce40 h2 = true ->
+    kernel_inputs (hdr_raw h1) = kernel_inputs (hdr_raw h2) -> h1 = h2.
+Proof. exact kernel_inputs_field_sensitive_lemma. Qed.
+Print Assumptions C17_kernel_inputs_field_sensitive.
+
+(* ---------------- lru11::Cache as a lossy map (arbitrary values, not only graph-of-f pairs) ---------------- *)
+
+(** for every sequence of insert / tryGet / clear with ARBITRARY keys and values, from every state satisfying the
+    invariant (the empty cache does: lmap_inv_nil): every tryGet answer is a miss or the value most recently
+    inserted under exactly that key since the last clear; capacity and key uniqueness hold at the end *)
+Theorem C17_lru_refines_map :
+  forall (Key V : Type) (key_eqb : Key -> Key -> bool),
+    (forall a b : Key, key_eqb a b = true <-> a = b) ->
+    forall (v_eqb : V -> V -> bool), (forall v, v_eqb v v = true) ->
+    forall (maxsize elast : nat) (ops : list (lop Key V)) (l : lru Key V) (m : ideal Key V),
+      lmap_inv Key V key_eqb maxsize elast l m ->
+      answers_admissible Key V key_eqb v_eqb ops (fst (lop_run Key V key_eqb maxsize elast ops l)) m = true /\
+      lmap_inv Key V key_eqb maxsize elast (snd (lop_run Key V key_eqb maxsize elast ops l))
+               (fold_left (fun m o => ideal_step Key V o m) ops m).
+Proof. exact lru_refines_map_lemma. Qed.
+Print Assumptions C17_lru_refines_map.
+
+(** an entry stored under key k is only ever returned for k, and never a stale one *)
+Theorem C17_lru_key_confinement :
+  forall (Key V : Type) (key_eqb : Key -> Key -> bool),
+    (forall a b : Key, key_eqb a b = true <-> a = b) ->
+    forall (maxsize elast : nat) (ops : list (lop Key V)) (l : lru Key V) (m : ideal Key V) (k : Key) (v : V) (l' : lru Key V),
+      lmap_inv Key V key_eqb maxsize elast l m ->
+      lop_step Key V key_eqb maxsize elast (LGet Key V k) (snd (lop_run Key V key_eqb maxsize elast ops l)) = (Some (Some v), l') ->
+      ideal_get Key V key_eqb k (fold_left (fun m o => ideal_step Key V o m) ops m) = Some v.
+Proof. exact lru_key_confinement_lemma. Qed.
+Print Assumptions C17_lru_key_confinement.
